@@ -115,6 +115,165 @@ def chain_stage(chk, viol, C, F, rng, prop, digits, compare, which, tie_cases):
                 tie_cases.append((b, orig, r[0], r[1]))
 
 
+# ----------------------------------------------------------------------------------------------------------------------
+# histories: one matrix object is exported again after in-place edits.  A writer must describe the object's current state:
+# the file of the re-used object has to read back like the file of a fresh object of the same definition (deep copy),
+# and like the edited matrix itself.
+def layout_nf(cfg, dbs):
+    """identity + bit layout of what a reader returned, as plain data"""
+    out = {}
+    for bname, m in dbs.items():
+        fr = {}
+        for f in m.frames:
+            fr.setdefault("%d_%d" % fmt_rt.fkey(f), {"name": f.name, "signals": sorted(
+                (s.name, bool(s.is_little_endian), int(s.size), tuple(fmt_rt.sig_positions(s))) for s in f.signals)})
+        out[bname] = fr
+    return out
+
+
+def edit_in_place(rng, C, cfg, buses):
+    """one in-place edit of the kind tools and scripts apply between exports; stays inside cfg's envelope.
+    Returns a short description, or None when nothing applicable was found."""
+    frames = [(m, f) for m in buses.values() for f in m.frames]
+    used_ids = {fmt_rt.fkey(f) for _, f in frames}
+    used_numbers = {int(f.arbitration_id.id) for _, f in frames}
+    fnames = {f.name for _, f in frames}
+    snames = {s.name for _, f in frames for s in f.signals}
+    m, fr = rng.choice(frames)
+    kind = rng.choice(["id-object", "id-attribute", "id-format", "frame-name", "signal-move", "signal-name", "signal-delete", "signal-add", "frame-length"])
+
+    def new_id(ext):
+        for _ in range(200):
+            i = rng.randrange(1, 2 ** 29 if ext else 2 ** 11)
+            if (i, ext) not in used_ids and i not in used_numbers:
+                return i
+        return None
+    ext = bool(fr.arbitration_id.extended)
+    if kind == "id-object":
+        i = new_id(ext)
+        if i is None:
+            return None
+        fr.arbitration_id = C.ArbitrationId(i, ext)
+    elif kind == "id-attribute":
+        i = new_id(ext)
+        if i is None:
+            return None
+        fr.arbitration_id.id = i
+    elif kind == "id-format":
+        i = new_id(not ext)
+        if i is None:
+            return None
+        fr.arbitration_id = C.ArbitrationId(i, not ext)
+    elif kind == "frame-name":
+        n = fr.name + "_r%d" % rng.randrange(100)
+        if n in fnames:
+            return None
+        fr.name = n
+    elif kind == "frame-length":
+        legal = [x for x in (1, 2, 3, 4, 5, 6, 7, 8, 12, 16, 20, 24, 32, 48, 64) if x > int(fr.size)]
+        if not legal:
+            return None
+        fr.size = rng.choice(legal[:3])
+        if fr.size > 8:
+            fr.is_fd = True
+    else:
+        muxed = any(s.is_multiplexer for s in fr.signals)
+        occupied = {}
+        for s in fr.signals:
+            for p in fmt_rt.sig_positions(s):
+                occupied[p] = occupied.get(p, 0) + 1
+        nbits = 8 * int(fr.size)
+        if kind == "signal-name":
+            s = rng.choice(fr.signals)
+            if cfg.fmt == "sym" and s.is_multiplexer:
+                return None
+            n = s.name + "_e%d" % rng.randrange(100)
+            if n in snames:
+                return None
+            for o in fr.signals:
+                if o.muxer_for_signal == s.name:
+                    o.muxer_for_signal = n
+            s.name = n
+        elif kind == "signal-delete":
+            cand = [s for s in fr.signals if not s.is_multiplexer and (s.mux_val is None or sum(1 for o in fr.signals if o.mux_val is not None) > 1)]
+            if len(fr.signals) < 2 or not cand:
+                return None
+            fr.signals.remove(rng.choice(cand))
+        elif kind == "signal-add":
+            if muxed:
+                return None
+            free = [p for p in range(nbits) if p not in occupied]
+            if not free:
+                return None
+            n = "SAdded%d" % rng.randrange(10000)
+            if n in snames:
+                return None
+            s = C.Signal(n, start_bit=rng.choice(free), size=1, is_little_endian=True, is_signed=False)
+            s.min, s.max = 0, 1
+            fr.add_signal(s)
+        else:   # signal-move: another placement and possibly byte order, on bits that are free or its own
+            s = rng.choice(fr.signals)
+            own = set(fmt_rt.sig_positions(s))
+            keep_le = s.is_multiplexer and cfg.feats.get("mux_intel_unsigned", False)     # KCD: the multiplexer stays Intel
+            for _ in range(60):
+                le = bool(s.is_little_endian) if (keep_le or rng.random() < 0.5) else not s.is_little_endian
+                st = rng.randrange(0, nbits - int(s.size) + 1)
+                pos = fmt_rt.layouts.positions(le, st, int(s.size))
+                if (le, st) != (bool(s.is_little_endian), int(s.start_bit)) and all(p in own or p not in occupied for p in pos):
+                    s.is_little_endian = le
+                    s.start_bit = st
+                    break
+            else:
+                return None
+    return kind
+
+
+def history_stage(chk, viol, C, F, rng, tie_cases):
+    per_cfg = 5 if chk.tier != "thorough" else 40
+    for cfg in fmt_rt.CONFIGS:
+        if "C06" not in cfg.props:
+            continue
+        for it in range(per_cfg):
+            nb = rng.choice([1, 2]) if cfg.cluster else 1
+            buses = fmt_rt.gen_case(rng, C, cfg, digits=4, nbuses=nb)
+            trail = []
+
+            def mk_info(fr=None, sig=None, cfg=cfg, it=it, trail=trail, buses=buses):
+                d = {"format": cfg.key, "options": cfg.opts, "history": "export, then in-place edits each followed by an export of the SAME objects",
+                     "edits": list(trail), "iteration": it,
+                     "current_frames": {n: [[f.name, f.arbitration_id.id, bool(f.arbitration_id.extended)] for f in m.frames] for n, m in buses.items()}}
+                if fr is not None:
+                    d["frame"] = fmt_rt.frame_brief(fr)
+                if sig is not None:
+                    d["signal"] = sig
+                return d
+            if round_trip(F, cfg, buses, viol, mk_info) is None:     # first export: warms whatever the writer may remember
+                continue
+            for step in range(3):
+                what = edit_in_place(rng, C, cfg, buses)
+                if what is None:
+                    chk.count("history-edit-not-applicable")
+                    continue
+                trail.append(what)
+                chk.count("history-edit:" + what)
+                fresh = copy.deepcopy(buses)            # same definition, new objects
+                state = copy.deepcopy(buses)            # the state the export has to describe (writers may touch their argument)
+                r_fresh = round_trip(F, cfg, fresh, viol, mk_info)
+                r_used = round_trip(F, cfg, buses, viol, mk_info)
+                if r_fresh is None or r_used is None or r_fresh[1] is None or r_used[1] is None:
+                    break
+                chk.count("history-exports:" + cfg.fmt)
+                a, b = layout_nf(cfg, r_used[1]), layout_nf(cfg, r_fresh[1])
+                if a != b:
+                    diff = matgen.diff(b, a)[:6]
+                    viol(cfg.kbase + "-reused-object-differs-from-fresh", "after an in-place edit (%s) the export of the same objects reads back "
+                         "differently from the export of a fresh copy of the same matrix" % what, mk_info(),
+                         [list(map(str, x)) for x in diff], "paths: fresh value vs re-used value")
+                # and against the edited state itself, under keys of this stage
+                compare_layout(chk, lambda key, *rest: viol("after-edit:" + key, *rest), cfg, rng, state, r_used[1], mk_info)
+                chk.case((cfg.key, "history", it, step, what), True)
+
+
 def compare_layout(chk, viol, cfg, rng, orig, back, mk_info):
     """orig/back: dict bus -> CanMatrix.  Returns number of frames compared."""
     nfr = 0
@@ -222,7 +381,8 @@ def run(chk):
     chk.rule = ("per format configuration (dbc, dbf, sym, kcd, json, json-all, xls x {msbreverse, msb, lsb}, arxml 3.2.3 / 4.1.0) seeded matrices "
                 "inside the format's envelope: 1..5 frames (clusters: 1..3 buses), lengths 1..8 and CAN-FD lengths up to 64, standard and extended ids "
                 "(half of the extended ones above 0x7FF), Intel/Motorola signals of widths 1..64 at random non-overlapping placements, simple (all) and "
-                "extended (dbc, json) multiplexing; 8 payloads per frame. one evaluation = one frame compared after the round trip; non-trivial = extended id, "
+                "extended (dbc, json) multiplexing; 8 payloads per frame; conversion chains A->B over all ordered format pairs; histories: the same matrix objects "
+                "exported again after in-place edits (id object/attribute/format, frame name/length, signal move/rename/delete/add), compared with a fresh deep copy's export and with the edited state. one evaluation = one frame compared after the round trip; non-trivial = extended id, "
                 "length > 8 or a Motorola signal crossing a byte boundary; distinct by (configuration, frame normal form)")
     chk.notes.append("envelope decisions (DESIGN.md Appendix A): SYM has no place for a non-multiplexed signal in a multiplexed frame (the writer repeats it "
                      "in every Mux= block, the reader returns one copy per block with that block's selector) - generated SYM multiplexed frames hold the "
@@ -293,6 +453,8 @@ def run(chk):
             tie_cases.append((cfg, orig, r[0], r[1]))
     # ---- conversion chains ----
     chain_stage(chk, viol, C, F, rng, "C06", 4, compare_layout, "layout", tie_cases)
+    # ---- histories: the same objects exported again after in-place edits ----
+    history_stage(chk, viol, C, F, rng, tie_cases)
     # ---- placement sweep: one signal per frame, every (byte order, start, width) of an 8 byte frame ----
     placements = [(le, st, w) for le in (True, False) for w in range(1, 65) for st in range(0, 65 - w)]
     if chk.tier != "thorough":
